@@ -4,6 +4,8 @@
   of the handshake verdict.  Chain validity is the Boolean `chainOk` (OpenSSL's; see level_note).
 -/
 import MitmVerif.Model.C15
+import MitmVerif.Model.C14
+import MitmVerif.Lemmas.C14
 import MitmVerif.Gen.C15
 namespace MitmVerif.Props.C15
 open MitmVerif MitmVerif.C15
@@ -246,5 +248,65 @@ example : outcome (fun b => some (.dns b)) 36 ⟨false, none, some (strBytes "ex
     [.dns (strBytes "example.com")] = .failed := by decide +kernel
 example : outcome (fun b => some (.dns b)) 36 ⟨true, none, some (strBytes "example.com"), strBytes "10.0.0.1"⟩ false
     [] = .established := by decide +kernel
+
+/-! ### from the tunnel model (Model/C14.lean): a failed verification never turns into "connection open" -/
+
+section tunnel
+open MitmVerif.C14
+variable {K : Codec}
+
+/-- When `do_handshake` fails (certificate verify failed → OpenSSL error) while the server TLS layer is answering a
+    child's OpenConnection: the child is told the error — it is given `OpenConnectionCompleted(err)` and nothing else, in
+    particular never a successful completion —, the failure hook and CloseConnection are emitted and the tunnel is
+    CLOSED; and unless the child reacts to the error by issuing commands, nothing was handed to the TLS engine for
+    sending (`sendall` is never called: the accepted plaintext is unchanged and the engine state is the one
+    `do_handshake` left). -/
+theorem fail_sends_no_appdata (env : Env K) (child : Child) (s : St K) (c : K.σ) (d : Bytes)
+    (hside : s.side = .server) (htls : s.tls = some c) (hr : s.replyTo = true) (he : s.errored = false)
+    (hfail : (K.handshake (feedIf c d)).1 = .error) :
+    (hsData env child s d).toChild = s.toChild ++ [.opened true]
+    ∧ CEv.opened false ∉ (hsData env child s d).toChild.drop s.toChild.length
+    ∧ (child s.toChild (.opened true) = [] →
+        (hsData env child s d).st = .closed
+        ∧ (hsData env child s d).up = s.up ++ [.log 2, .hook 3, .close]
+        ∧ (hsData env child s d).accepted = s.accepted
+        ∧ (hsData env child s d).tls = some (K.handshake (feedIf c d)).2) := by
+  have hh : K.handshake (feedIf c d) = (.error, (K.handshake (feedIf c d)).2) := by
+    rw [← hfail]
+  have hstep : hsData env child s d =
+      clearReply (deliver child (addRouted (setSt (emit { s with tls := some (K.handshake (feedIf c d)).2 }
+        [.log 2, .hook 3, .close]) .closed) (.opened true)) (.opened true)) := by
+    unfold hsData recvHandshake hsTls
+    simp only [hside, htls]
+    rw [hh]
+    simp only [onHandshakeError, hside, handshakeFinished, emit, setSt, hr, if_true, Bool.or_true,
+      eventToChild, he, Bool.false_eq_true, if_false]
+    simp
+  rw [hstep]
+  have htc : ∀ t : St K, (deliver child t (.opened true)).toChild = t.toChild ++ [.opened true] := by
+    intro t
+    unfold deliver
+    have hf := Lemmas.frame_handleCmds (child t.toChild (.opened true)) ({ t with toChild := t.toChild ++ [.opened true] } : St K)
+    simp only [Lemmas.frame, Prod.mk.injEq] at hf
+    exact hf.1
+  have h1 : (clearReply (deliver child (addRouted (setSt (emit { s with tls := some (K.handshake (feedIf c d)).2 }
+        [.log 2, .hook 3, .close]) .closed) (.opened true)) (.opened true))).toChild = s.toChild ++ [.opened true] := by
+    show (deliver child _ _).toChild = _
+    rw [htc]; rfl
+  refine ⟨h1, ?_, ?_⟩
+  · rw [h1]; simp
+  · intro hchild
+    have : deliver child (addRouted (setSt (emit { s with tls := some (K.handshake (feedIf c d)).2 }
+        [.log 2, .hook 3, .close]) .closed) (.opened true)) (.opened true)
+        = { (addRouted (setSt (emit { s with tls := some (K.handshake (feedIf c d)).2 }
+        [.log 2, .hook 3, .close]) .closed) (.opened true)) with toChild := s.toChild ++ [.opened true] } := by
+      unfold deliver
+      have : child (addRouted (setSt (emit { s with tls := some (K.handshake (feedIf c d)).2 }
+        [.log 2, .hook 3, .close]) .closed) (.opened true)).toChild (.opened true) = [] := hchild
+      rw [this]; rfl
+    rw [this]
+    exact ⟨rfl, rfl, rfl, rfl⟩
+
+end tunnel
 
 end MitmVerif.Props.C15
